@@ -44,8 +44,11 @@ func NewMerger(
 	logger logr.Logger,
 ) (m *Merger, err error) {
 	m = &Merger{
-		db:             db,
-		errChan:        make(chan error, len(otherTs)),
+		db: db,
+		// one slot per differ goroutine plus one each for mergeTables and the
+		// row collector: every goroutine sends at most one error and nobody
+		// reads the channel before the pipeline has finished
+		errChan:        make(chan error, len(otherTs)+2),
 		progressPeriod: progressPeriod,
 		baseT:          baseT,
 		otherTs:        otherTs,
